@@ -431,6 +431,18 @@ example : (runSched exPol 1000 3 [] exWriter exL [true, false, false, true, true
     { store := exStore, cpc := .start, wpc := .idle }).wpc = .committed := by decide
 example : ∀ p ∈ exL.m.paths, ∃ f ∈ exStore.files, f.path = p := by decide
 
+/-- the premise "the writer is an append with new, young files" is needed: a RESTORE of version 1 that commits between
+    cleanup's manifest inspection and its deletions publishes version 4 = the content of version 1, whose data file
+    `data/a.lance` (verified through the old manifests, referenced by no manifest cleanup saw) is then deleted.  Model-level
+    witness; on the real code the window is between `restore`'s read of the old manifest and cleanup's listing. -/
+theorem race_restore_counterexample :
+    let st := iterC exPol 1000 3 [] 9
+      (stepRestore exM1 ["_versions".toList, "4.manifest".toList] 4 1000
+        (stepC exPol 1000 3 [] { store := exStore, cpc := .start, wpc := .idle }))
+    st.store.mans.any (fun mf => mf.m.version = 4 && mf.m.data = exM1.data) = true ∧
+      st.store.files.any (fun f => f.path = dataPath "a.lance".toList) = false ∧
+      exStore.files.any (fun f => f.path = dataPath "a.lance".toList) = true := by decide
+
 /-! ### the property at full strength, the defective region, the counterexample -/
 
 /-- a detached manifest object (`_versions/d<n>.manifest`, written by `commit_detached`): `list_manifest_locations` does
